@@ -25,28 +25,29 @@ func Choice(name string, n int) int        { return 0 }
 func Bytes(name string, n int) []byte      { return make([]byte, n) }
 func String(name string, n int) string     { return "" }
 func Param(name string) int                { return 0 }
+func ParamOr(name string, def int) int     { return def }
 
-func Assume(cond bool)               {}
-func Assert(cond bool, label string) {}
-func Reach(label string)             {}
-func Cut(label string)               {}
+func Assume(cond bool)                    {}
+func Assert(cond bool, label string)      {}
+func Reach(label string)                  {}
+func Cut(label string)                    {}
 func Observe(label string, v interface{}) {}
-func Concretize(x int) int           { return x }
-func IsSymbolic() bool               { return true }
+func Concretize(x int) int                { return x }
+func IsSymbolic() bool                    { return true }
 
 func AllocBegin(engineThreshold int, nativeBound int, label string) {}
-func AllocEnd()                                                      {}
-func Epoch(roots ...interface{})                                     {}
-func EpochEnd() int                                                  { return 0 }
-func MapOrder(k int)                                                 {}
+func AllocEnd()                                                     {}
+func Epoch(roots ...interface{})                                    {}
+func EpochEnd() int                                                 { return 0 }
+func MapOrder(k int)                                                {}
 
-func StrEq(a, b string) bool         { return a == b }
-func BytesEq(a, b []byte) bool       { return false }
-func StrsEq(a, b []string) bool      { return false }
-func And(a, b bool) bool             { return a && b }
-func Or(a, b bool) bool              { return a || b }
-func Implies(a, b bool) bool         { return !a || b }
-func Ite(c bool, a, b int) int       { return a }
+func StrEq(a, b string) bool           { return a == b }
+func BytesEq(a, b []byte) bool         { return false }
+func StrsEq(a, b []string) bool        { return false }
+func And(a, b bool) bool               { return a && b }
+func Or(a, b bool) bool                { return a || b }
+func Implies(a, b bool) bool           { return !a || b }
+func Ite(c bool, a, b int) int         { return a }
 func HasPrefixC(s, prefix string) bool { return false }
 
 func ParseLnCol(s string) (line, col int, ok bool) { return 0, 0, false }
